@@ -142,7 +142,9 @@ class _ShapeList(list):
         if radunit == 'arcsec':
             # arcseconds are allowed for all but image coordinates
             if coordsys.lower() not in ('image',):
-                radunitstr = '"'
+                # the reader does not accept the '"' shorthand inside a
+                # pair of lengths, so write the unit name
+                radunitstr = 'arcsec'
             else:
                 raise ValueError('Radius unit arcsec not valid for '
                                  f'coordsys {coordsys}')
